@@ -133,11 +133,22 @@ Section Programs.
     | KArr2 rows => List.concat rows
     | KRec fs => map snd fs
     | KFun _ => []
+    | KTree _ => []
+    end.
+
+  (** no marker in a nested literal *)
+  Fixpoint pf_tree (t : ctree) : Prop :=
+    match t with
+    | TA a => a <> AProbe
+    | TL xs => (fix go (xs : list ctree) : Prop :=
+                  match xs with [] => True | x :: xs' => pf_tree x /\ go xs' end) xs
+    | TR fs => (fix go (fs : list (string * ctree)) : Prop :=
+                  match fs with [] => True | (_, x) :: fs' => pf_tree x /\ go fs' end) fs
     end.
 
   (** No marker in the container itself; a function container is one of the scalar functions. *)
   Definition container_ok (k : container) : Prop :=
-    ~ In AProbe (atoms_of k) /\ match k with KFun o => fn_scalar o | _ => True end.
+    ~ In AProbe (atoms_of k) /\ match k with KFun o => fn_scalar o | KTree t => pf_tree t | _ => True end.
 
   Lemma AR_in : forall xs, ~ In AProbe xs -> forall x, In x xs -> RelT (thunk_of_atom x) (thunk_of_atom x).
   Proof. intros xs N x Hx. apply atom_rel. intros ->. auto. Qed.
@@ -166,9 +177,50 @@ Section Programs.
     - apply IH. intros C. apply N. now right.
   Qed.
 
+  Lemma tree_refl : forall t, pf_tree t -> RelT (thunk_of_tree t) (thunk_of_tree t).
+  Proof.
+    fix IH 1. intros [a|xs|fs] P; cbn [thunk_of_tree].
+    - now apply atom_rel.
+    - apply relT_val. constructor. apply RV_arr', ArrR_of_elems.
+      revert xs P. fix IHxs 1. intros [|x xs] P; cbn in *; constructor.
+      + apply IH. apply P.
+      + apply IHxs. apply P.
+    - apply relT_val. constructor. apply RV_rec'.
+      revert fs P. fix IHfs 1. intros [|[k x] fs] P; cbn in *; constructor.
+      + split; [reflexivity|]. intros q1 q2 n S1 S2. cbn [fst snd] in *.
+        apply same_ctrs_nil in S1, S2. subst. apply IH. apply P.
+      + apply IHfs. apply P.
+  Qed.
+
+  Lemma plug_tree_rel : forall a, Hole lval (atom_res a) -> forall pos t, pf_tree t ->
+    RelT (thunk_of_tree (plug_tree t pos AProbe)) (thunk_of_tree (plug_tree t pos a)).
+  Proof.
+    intros a HA. induction pos as [|i pos IH]; intros t P.
+    - destruct t; cbn [plug_tree]; try (now apply tree_refl). cbn. now apply hole_atom.
+    - destruct t as [b|xs|fs]; cbn [plug_tree]; try (now apply tree_refl).
+      + cbn [thunk_of_tree]. apply relT_val. constructor. apply RV_arr', ArrR_of_elems.
+        revert i P. induction xs as [|x xs IHxs]; intros [|i] P; cbn in *; constructor;
+          try (apply IH; apply P); try (apply tree_refl; apply P).
+        * clear IHxs. destruct P as [_ P]. induction xs as [|y ys IHy]; cbn in *; constructor.
+          -- apply tree_refl. apply P.
+          -- apply IHy. apply P.
+        * apply IHxs. apply P.
+      + cbn [thunk_of_tree]. apply relT_val. constructor. apply RV_rec'.
+        revert i P. induction fs as [|[k x] fs IHfs]; intros [|i] P; cbn in *; constructor.
+        * split; [reflexivity|]. intros q1 q2 n S1 S2. cbn [fst snd] in *.
+          apply same_ctrs_nil in S1, S2. subst. apply IH. apply P.
+        * clear IHfs. destruct P as [_ P]. induction fs as [|[k2 y] ys IHy]; cbn in *; constructor.
+          -- split; [reflexivity|]. intros q1 q2 n S1 S2. cbn [fst snd] in *.
+             apply same_ctrs_nil in S1, S2. subst. apply tree_refl. apply P.
+          -- apply IHy. apply P.
+        * split; [reflexivity|]. intros q1 q2 n S1 S2. cbn [fst snd] in *.
+          apply same_ctrs_nil in S1, S2. subst. apply tree_refl. apply P.
+        * apply IHfs. apply P.
+  Qed.
+
   Lemma container_refl : forall k, container_ok k -> RelT (thunk_of_container k) (thunk_of_container k).
   Proof.
-    intros [xs|rows|fs|o] [NP OK]; cbn in *.
+    intros [xs|rows|fs|o|tr] [NP OK]; cbn in *; [| | | |now apply tree_refl].
     - now apply row_refl.
     - apply relT_val. constructor. apply RV_arr', ArrR_of_elems.
       apply Forall2_refl_in. intros t Ht. apply in_map_iff in Ht as [r [<- Hr]].
@@ -183,7 +235,8 @@ Section Programs.
     RelT (thunk_of_container (plug k pos AProbe)) (thunk_of_container (plug k pos a)).
   Proof.
     intros k pos a OK HA. pose proof OK as [NP _].
-    destruct k as [xs|rows|fs|o]; cbn [plug]; cbn [atoms_of] in NP.
+    destruct k as [xs|rows|fs|o|tr]; cbn [plug]; cbn [atoms_of] in NP;
+      [| | | |cbn [thunk_of_container]; apply plug_tree_rel; [exact HA | apply OK]].
     - destruct pos as [|i [|? ?]]; try (apply container_refl; exact OK). cbn.
       apply rows_rel. apply set_nth_rel; [now apply AR_in | now apply hole_atom].
     - destruct pos as [|i [|j [|? ?]]]; try (apply container_refl; exact OK).
@@ -369,7 +422,7 @@ Section Programs.
   Theorem guarded : forall k pos T, wf_case k pos T = true ->
     RelT (thunk_of_container (plug k pos AProbe)) (TCtr (true, T) (thunk_of_container (plug k pos a))).
   Proof.
-    intros k pos T WF. destruct k as [xs|rows|fs|o]; cbn in WF; try discriminate.
+    intros k pos T WF. destruct k as [xs|rows|fs|o|tr]; cbn in WF; try discriminate.
     - (* array *)
       destruct pos as [|i [|? ?]]; try discriminate. destruct T; try discriminate. destruct T; try discriminate.
       cbn [plug thunk_of_container]. apply arr_guard. now apply GR_plug.
